@@ -10,11 +10,34 @@ McAscInputs == { AscBytes(2, 4, 2), AscBytes(1, 1, 1), AscBytes(29, 12, 7),
 AuxAll == [priv |-> 1, orig |-> 1, home |-> 1, cib |-> 1, cis |-> 1, bf |-> 0]
 Fr(id, prot, profile, sfi, chan, n, crc, aux) ==
   [id |-> id, prot |-> prot, profile |-> profile, sfi |-> sfi, chan |-> chan,
-   n |-> n, fid |-> 0, crc |-> crc, aux |-> aux]
+   n |-> n, fid |-> 0, crc |-> crc, aux |-> aux, pre |-> <<>>]
 \* the ISO writer: both IDs, with and without CRC (one CRC that looks like a sync word)
 McFrames == { Fr(1, 1, 1, 4, 2, 1, 0, Aux0),
               Fr(0, 0, 1, 4, 2, 2, 65521, Aux0),
               Fr(1, 0, 0, 1, 1, 1, 4660, AuxAll),
               Fr(0, 1, 2, 12, 7, 3, 0, AuxAll),
               Fr(1, 0, 2, 11, 5, 3, 65535, Aux0) }
+
+\* ---- payload classes (MC_Adts_pay / MC_Adts_pass): a smaller alphabet, plus raw blocks with content
+PayAscInputs == { AscBytes(2, 4, 2), AscBytes(29, 12, 7), AscBytes(4, 4, 2) }
+\* the ISO writer: a CRC frame, and a frame that carries a complete frame as its raw block
+PayMcFrames == { Fr(0, 0, 1, 4, 2, 2, 65521, Aux0),
+                 [Fr(1, 1, 0, 3, 1, 9, 0, Aux0) EXCEPT !.pre = PreFrame(Fr(0, 1, 1, 4, 2, 2, 0, Aux0))] }
+\* raw blocks handed to Encode that are complete frames: another configuration without and
+\* with CRC (either ID), and a frame whose block is a frame again
+McPayFrames == { Fr(0, 1, 0, 3, 1, 2, 0, Aux0),
+                 Fr(1, 0, 2, 11, 5, 1, 65521, AuxAll),
+                 [Fr(1, 1, 1, 4, 2, 8, 0, Aux0) EXCEPT !.pre = PreFrame(Fr(0, 1, 0, 3, 1, 1, 0, Aux0))] }
+\* raw blocks that start like a header: sync word only, and a header of a 3-byte frame
+McPayHeads == { <<255, 241>>, <<255, 249, 80>> }
+
+\* ---- long streams (MC_Adts_long / MC_Adts_len16): frames of the maximum size, written until the
+\* stream is longer than 64 KiB, then decoded one at a time
+LongFrames == { Fr(1, 0, 0, 3, 6, 8182, 4660, Aux0) }
+\* all frames are written before the first is taken
+\* what an error trace of these runs shows (the stream itself is 64 KiB of numbers)
+LongView == [asc |-> asc, res |-> res, nw |-> nw, wire_len |-> Len(wire), pending |-> Len(pend),
+             got |-> IF got = <<>> THEN "-" ELSE [ok |-> got[1].ok, why |-> got[1].why, fl |-> got[1].fl,
+                                                   raw_len |-> Len(got[1].raw), left_len |-> Len(got[1].left)]]
+WriteFirst == (Len(pend') < Len(pend)) => nw = MaxFrames
 =============================================================================
